@@ -1384,7 +1384,7 @@ func C05() *check.Property {
 		Title:    "Multi-source operators honour every arrival order of their inputs",
 		Patterns: CorePatterns,
 		Scope:    []string{ro},
-		Rules:    []check.Rule{ruleErrPropagation(), ruleArity(), ruleNoPrematureRelease(), ruleRaceLateLoser(), ruleComposition(), ruleSequentialInnerGuard(), ruleOuterCompleteWaitsInner(), ruleTerminalPropagation(), ruleObservableParamUsed(), ruleQueueFIFO(), rulePublishBeforeEmit(), ruleConsumeFlag(), ruleStateLevel(), ruleSlotGuardAgreement(), ruleAddAfterClose(), ruleTerminalCallAgreement(), ruleAccessGuarded(), ruleSubjectDelivers(), ruleSubjectBroadcastLocked(), ruleInnerFilledBeforeHandover(), ruleNoDuplicateForward(), ruleGetOrCreate(), ruleAtomicPointeeImmutable()},
+		Rules:    []check.Rule{ruleCompletionCounted(), ruleErrPropagation(), ruleArity(), ruleNoPrematureRelease(), ruleRaceLateLoser(), ruleComposition(), ruleSequentialInnerGuard(), ruleOuterCompleteWaitsInner(), ruleTerminalPropagation(), ruleObservableParamUsed(), ruleQueueFIFO(), rulePublishBeforeEmit(), ruleConsumeFlag(), ruleStateLevel(), ruleSlotGuardAgreement(), ruleAddAfterClose(), ruleTerminalCallAgreement(), ruleAccessGuarded(), ruleSubjectDelivers(), ruleSubjectBroadcastLocked(), ruleInnerFilledBeforeHandover(), ruleNoDuplicateForward(), ruleGetOrCreate(), ruleAtomicPointeeImmutable()},
 		Explanation: "Narrow structural claim. Arrival orders are run-time histories and are NOT decided. Two necessary conditions are: ERR-PROPAGATION — 'an error from any source ends the output at once': for every upstream subscribe site of every operator " +
 			"(multi-source ones included) the observer's error slot reaches an Error notification to the destination, or the operator's definition consumes the error (listed with reasons); partial observers that swallow errors are reported. NO-PREMATURE-RELEASE — 'nothing is lost, completion comes when the definition says': inside a notification slot of one source the other sources are unsubscribed only on paths that also terminate the output. ARITY — the fixed-arity " +
 			"CombineLatestWithK/ZipWithK families subscribe K+1 distinct sources, build K+1-tuples from K+1 distinct variables and (CombineLatest) use only counter constants consistent with K+1 sources.",
